@@ -271,6 +271,15 @@ class Model:
         for c in self._constraints:
             if isinstance(c, tuple) and c[0] in SAT_REQUIRED:
                 return "sat"
+            # A linear equality over three or more variables is a sum constraint written with
+            # operators: DFS does not propagate it (it is only checked at the leaves)
+            if isinstance(c, tuple) and c[0] == "ne_expr" and not c[3]:
+                try:
+                    terms, _ = self._linear_diff(c[1], c[2])
+                except ValueError:
+                    continue
+                if len(terms) >= 3:
+                    return "sat"
         return "dfs"
 
     def solve(
